@@ -83,12 +83,12 @@ func c01Setup(c *core.Ctx) {
 	})
 }
 
-type c01plan struct{ tok1, tok2, tok3, infix, deep, shapes, names, mut, chaos, cyc, seq, repl int }
+type c01plan struct{ tok1, tok2, tok3, infix, deep, shapes, names, mut, chaos, cyc, sel, seq, repl int }
 
 func c01Plan(c *core.Ctx) c01plan {
 	c01Setup(c)
 	k := len(c01Alphabet)
-	p := c01plan{tok1: 1, tok2: k, infix: len(c01Infix), deep: len(c01Deep), shapes: len(c01special), names: len(c01names), mut: thorN(c, 600, 12000), chaos: thorN(c, 800, 15000), cyc: 12, seq: thorN(c, 20, 200), repl: thorN(c, 12, 120)}
+	p := c01plan{tok1: 1, tok2: k, infix: len(c01Infix), deep: len(c01Deep), shapes: len(c01special), names: len(c01names), mut: thorN(c, 600, 12000), chaos: thorN(c, 800, 15000), cyc: 12, sel: 7 * 7, seq: thorN(c, 20, 200), repl: thorN(c, 12, 120)}
 	if c.Thor {
 		p.tok3 = k * k
 	}
@@ -99,14 +99,14 @@ func init() {
 	core.Register(&core.Prop{
 		ID:    "C01",
 		Level: "exploration",
-		Rule: "inputs: (1) every string of 1 and 2 (quick) / 1..3 (thorough) tokens over a 103-token alphabet, and every infix block { … } with a body of 2 (a fifth of them 3; thorough all 3) tokens over a 36-token infix alphabet with 0-2 line/block comments after the brace, and 30 constructs nested 200 / 2000 (thorough 6000) levels deep, balanced, left open and over-closed (every bracket, quote, sigil and operator character, one literal of each numeric notation, string/char/raw-string openers, comment openers, every special-form name), with and without blanks between tokens; (2) every special form of the compiler and every name bound after StandardSetup (except the ones that end, block or leave the process by design) with 0..4 arguments over 33 argument kinds (including dotted pairs and improper argument lists); (3) byte- and token-level mutations (delete, duplicate, swap, truncate, splice) of the tests/*.zy corpus; (4) generated programs in chaos mode (ill-typed calls, wrong arities, out-of-range indices, tokens replaced by brackets/sigils); (5) self-referential arrays/hashes printed, compared, encoded and converted; (6) sequences of hostile inputs against one long-lived interpreter; (7) lines fed to the real REPL (cmd/zygo -no-liner) and texts given to cmd/zygo -c. " +
+		Rule: "inputs: (1) every string of 1 and 2 (quick) / 1..3 (thorough) tokens over a 103-token alphabet, and every infix block { … } with a body of 2 (a fifth of them 3; thorough all 3) tokens over a 36-token infix alphabet with 0-2 line/block comments after the brace, and 30 constructs nested 200 / 2000 (thorough 6000) levels deep, balanced, left open and over-closed (every bracket, quote, sigil and operator character, one literal of each numeric notation, string/char/raw-string openers, comment openers, every special-form name), with and without blanks between tokens; (2) every special form of the compiler and every name bound after StandardSetup (except the ones that end, block or leave the process by design) with 0..4 arguments over 33 argument kinds (including dotted pairs and improper argument lists); (3) byte- and token-level mutations (delete, duplicate, swap, truncate, splice) of the tests/*.zy corpus; (4) generated programs in chaos mode (ill-typed calls, wrong arities, out-of-range indices, tokens replaced by brackets/sigils); (5) self-referential arrays/hashes printed, compared, encoded and converted; index / slice / selector expressions over arrays, strings, lists and hashes with every combination of 7 bounds (in range, equal, inverted, negative, past the end, huge) as values, assignment sources and assignment targets; (6) sequences of hostile inputs against one long-lived interpreter; (7) lines fed to the real REPL (cmd/zygo -no-liner) and texts given to cmd/zygo -c. " +
 			"Entry points: EvalString, LoadString+Run, Parser.ParseTokens whole and in two pieces, EvalExpressions on the parsed forms, macro definition+expansion. Monitor: a recover() boundary around every call (anything reaching it escaped the library), child-process death attributed through the journal (fatal errors, exit), (nil,nil) results, results whose printing fails, and the VM step budget; a watchdog hit outside the VM loop that reproduces alone is a hang. non-trivial = every distinct input",
 		Assumptions: []string{
 			"names that end, block or leave the process by design (exit, stop, sys, system, sleep, channel operations, file writers, timeit, go) are not called; resource exhaustion by honestly expensive programs is classified inconclusive by the step budget",
 		},
 		NCases: func(c *core.Ctx) int {
 			p := c01Plan(c)
-			return p.tok1 + p.tok2 + p.tok3 + p.infix + p.deep + p.shapes + p.names + p.mut + p.chaos + p.cyc + p.seq + p.repl
+			return p.tok1 + p.tok2 + p.tok3 + p.infix + p.deep + p.shapes + p.names + p.mut + p.chaos + p.cyc + p.sel + p.seq + p.repl
 		},
 		Chunk:           8,
 		CaseTimeoutS:    40,
@@ -114,7 +114,7 @@ func init() {
 		HangIsViolation: true,
 		Sanitize:        true,
 		NeedsZygoBin:    true,
-		MustSee:         []string{"eval_calls", "parse_calls", "evalexpr_calls", "loadrun_calls", "repl_lines", "cli_runs", "token_strings", "form_shapes", "mutations", "deep_nests"},
+		MustSee:         []string{"eval_calls", "parse_calls", "evalexpr_calls", "loadrun_calls", "repl_lines", "cli_runs", "token_strings", "form_shapes", "mutations", "deep_nests", "selector_expressions"},
 		Run:             c01Run,
 		Describe: func(c *core.Ctx, i int) string {
 			return "case " + fmt.Sprint(i) + ": " + c01Describe(c, i)
@@ -134,7 +134,7 @@ func c01Kind(c *core.Ctx, i int) (string, int) {
 	for _, k := range []struct {
 		name string
 		n    int
-	}{{"tok1", p.tok1}, {"tok2", p.tok2}, {"tok3", p.tok3}, {"infix", p.infix}, {"deep", p.deep}, {"shapes", p.shapes}, {"names", p.names}, {"mut", p.mut}, {"chaos", p.chaos}, {"cyc", p.cyc}, {"seq", p.seq}, {"repl", p.repl}} {
+	}{{"tok1", p.tok1}, {"tok2", p.tok2}, {"tok3", p.tok3}, {"infix", p.infix}, {"deep", p.deep}, {"shapes", p.shapes}, {"names", p.names}, {"mut", p.mut}, {"chaos", p.chaos}, {"cyc", p.cyc}, {"sel", p.sel}, {"seq", p.seq}, {"repl", p.repl}} {
 		if i < k.n {
 			return k.name, i
 		}
@@ -360,6 +360,27 @@ func c01Run(c *core.Ctx, i int) *core.Result {
 			res.Ev("mutations", 1)
 		}
 		res.Input = "chaos mutations of a generated program"
+	case "sel":
+		// index / slice / selector expressions with every combination of bounds (in range, equal,
+		// inverted, negative, past the end) as values, as assignment sources and as assignment targets
+		bounds := []string{"-1", "0", "1", "2", "3", "4", "9223372036854775807"}
+		bi, bj := bounds[k/7], bounds[k%7]
+		pre := "(def a [3 4 5]) (def s \"abc\") (def l (list 1 2 3)) (def h (hash k: [7 8] m: (hash z: 1)))\n"
+		for _, e := range []string{
+			"a[" + bi + "]", "a[" + bi + ":" + bj + "]", "a[" + bi + ":]", "a[:" + bj + "]", "s[" + bi + ":" + bj + "]", "s[" + bi + "]", "l[" + bi + "]", "h.k[" + bi + "]", "h.k[" + bi + ":" + bj + "]",
+			"a[" + bi + "][" + bj + "]", "h.m.z[" + bi + "]", "h[" + bi + "]", "a[a[" + bi + "]]", "a[" + bi + ":" + bj + "][0]",
+		} {
+			r.input(pre + "{" + e + "}\n")
+			r.input(pre + "{b := " + e + "}\n{c = " + e + "}\n(def d {" + e + "})\n")
+			r.input(pre + "{" + e + " = 5}\n{" + e + " := [1]}\n{" + e + " += 1}\n")
+			r.input(pre + "(str {" + e + "})\n(len {" + e + "})\n(first {" + e + "})\n")
+			res.Ev("selector_expressions", 4)
+		}
+		for _, e := range []string{"(arrayidx a [" + bi + ":" + bj + "])", "(arrayidx a [" + bi + "])", "(aget a " + bi + ")", "(slice a " + bi + " " + bj + ")", "(slice s " + bi + " " + bj + ")", "(aset a " + bi + " " + bj + ")", "(sget s " + bi + ")", "(hashidx h [" + bi + "])", "(arrayidx h.k [" + bi + ":" + bj + "])"} {
+			r.input(pre + e + "\n(def b " + e + ")\n(set (quote zz) " + e + ")\n(set " + e + " 1)\n")
+			res.Ev("selector_expressions", 1)
+		}
+		res.Input = "selector expressions with bounds " + bi + ", " + bj
 	case "cyc":
 		cyc := []string{
 			"(def c [1]) (aset c 0 c) (str c)\n", "(def c [1]) (aset c 0 c) c\n", "(def c [1 2]) (aset c 1 c) (== c c)\n", "(def c [1]) (aset c 0 c) (def d [1]) (aset d 0 d) (== c d)\n",
